@@ -303,6 +303,10 @@ pub enum ElemItems {
 pub struct ElemSpec {
     pub mode: ElemMode,
     pub items: ElemItems,
+    /// element type of an expression segment when it is a concrete typed function reference
+    /// `(ref null? $t)` instead of `funcref`: (type index, nullable)
+    #[serde(default)]
+    pub ty: Option<(u32, bool)>,
 }
 
 #[derive(Clone, Copy, Debug, PartialEq, Eq, Hash, Serialize, Deserialize)]
@@ -578,7 +582,10 @@ impl ModuleSpec {
                     ElemItems::Exprs(x) => {
                         exprs = x.iter().map(|c| c.enc()).collect();
                         wasm_encoder::Elements::Expressions(
-                            wasm_encoder::RefType::FUNCREF,
+                            match e.ty {
+                                Some((t, nullable)) => wasm_encoder::RefType { nullable, heap_type: wasm_encoder::HeapType::Concrete(t) },
+                                None => wasm_encoder::RefType::FUNCREF,
+                            },
                             std::borrow::Cow::Borrowed(&exprs),
                         )
                     }
